@@ -204,13 +204,18 @@ def build_state(a, st):
     rps = st['rps']
     done = {}
     pending = list(rps)
+    # some inner nodes get their place in the tree by a MOVE (created as a root, their descendants below them, then
+    # re-parented at 1.37): the final parent links are the same, and every descendant must have followed its root
+    import zlib
+    has_children = {r['parent'] for r in rps.values() if r.get('parent')}
+    moved = [u for u in rps if rps[u].get('parent') and u in has_children and zlib.crc32(u.encode()) % 3 == 0]
     while pending:
         progressed = False
         for u in list(pending):
             p = rps[u].get('parent')
-            if p is None or p in done:
+            if p is None or p in done or u in moved:
                 b = {'name': rps[u]['name'], 'uuid': u}
-                if p is not None:
+                if p is not None and u not in moved:
                     b['parent_provider_uuid'] = p
                 _ok(a.call('POST', '/resource_providers', b), 'provider')
                 done[u] = 0
@@ -218,6 +223,16 @@ def build_state(a, st):
                 progressed = True
         if not progressed:
             raise BuildError('parent cycle')
+    # deepest first, so that a moved subtree that contains another moved node carries it along
+    def depth(u):
+        n = 0
+        while rps[u].get('parent'):
+            u = rps[u]['parent']
+            n += 1
+        return n
+    for u in sorted(moved, key=depth, reverse=True):
+        _ok(a.call('PUT', '/resource_providers/%s' % u, {'name': rps[u]['name'], 'parent_provider_uuid': rps[u]['parent']},
+                   version='1.37'), 'move')
     by_rp = {}
     for (rp, rc, total, reserved, mi, ma, stp, ratio) in st['invs']:
         by_rp.setdefault(rp, {})[rc] = {'total': total, 'reserved': reserved, 'min_unit': mi, 'max_unit': ma,
